@@ -12,5 +12,18 @@ if ! go build -tags verif -o /verif/.bin/verif ./cmd/verif 2>/verif/.scratch/bui
   # a tree that does not compile with the harness cannot be explored; say so loudly (exit 2 = harness error, never a verdict)
   echo "HARNESS-ERROR: build failed:"; cat /verif/.scratch/build.log; exit 2
 fi
-[ "${1:-}" = build ] && exit 0
+build_c05() {
+  # C05 needs scheduling points inside the poller: rewrite the working-tree copies of internal/poll_linux.go and
+  # internal/eventfd.go (nothing under /repo is touched) and build through an overlay that also adds the shim package.
+  go build -o /verif/.bin/xform ./cmd/xform 2>>/verif/.scratch/build.log || return 1
+  rm -rf /verif/.scratch/overlay; /verif/.bin/xform /repo /verif/.scratch/overlay >/verif/.scratch/xform.log 2>&1 || { cat /verif/.scratch/xform.log; return 1; }
+  go build -overlay /verif/.scratch/overlay/overlay.json -tags "verif c05" -o /verif/.bin/verif-c05 ./cmd/verif 2>>/verif/.scratch/build.log || return 1
+  go build -race -gcflags=all=-d=checkptr=0 -o /verif/.bin/c05race ./cmd/c05race 2>>/verif/.scratch/build.log || echo "note: -race build unavailable" >>/verif/.scratch/build.log
+  return 0
+}
+if [ "${1:-}" = build ]; then build_c05 || { echo "HARNESS-ERROR: C05 build failed:"; cat /verif/.scratch/build.log; exit 2; }; exit 0; fi
+if [ "${1:-}" = C05 ]; then
+  build_c05 || { echo "HARNESS-ERROR: C05 build failed:"; cat /verif/.scratch/build.log; exit 2; }
+  exec /verif/.bin/verif-c05 "$@"
+fi
 exec /verif/.bin/verif "$@"
